@@ -136,7 +136,9 @@ def ring_identity(goal) -> bool:
             if not (z3.is_arith(l) and z3.is_arith(r)):
                 return False
             d = z3.simplify(l - r, som=True, arith_lhs=True)
-            return (z3.is_rational_value(d) or z3.is_int_value(d)) and d.as_fraction() == 0
+            if z3.is_int_value(d):
+                return d.as_long() == 0
+            return z3.is_rational_value(d) and d.as_fraction() == 0
     except z3.Z3Exception:
         return False
     return False
